@@ -240,6 +240,8 @@ def external(I, name, args, kwargs, st, node):
     if name.startswith("cssutils") or name.startswith("logging") or "log." in name or name.startswith("nltk"):
         return AV(kinds=["top"], pieces=[Piece("data", "doc", (), None, None)])
     if name.startswith("html.entities"):
+        if last == "copy":
+            return AV(kinds=["dict"], regions=["F"], elem=NUM)
         return AV(kinds=["dict"], regions=["G:html.entities"], elem=NUM)
     if name.endswith("Enum") or last in ("Number",):
         return TOP
